@@ -38,7 +38,9 @@ CLASSES = ["zeros", "constant", "one_sided_pos", "one_sided_neg", "offset", "sub
 SHAPES = [(8,), (32,), (2, 8), (8, 2), (4, 16), (16, 4), (3, 32), (32, 3), (2, 4, 8), (4, 2, 8), (3, 2, 2, 4),
           (2, 3, 4, 8), (4, 8, 8, 16), (6, 6), (12, 12), (5, 12), (12, 5), (2, 128), (128, 2), (8, 256), (2, 2, 2, 2),
           # unit dimensions opposite to the kept axis (Linear(in_features=1), 1x1 and kx1 convolution kernels)
-          (8, 1), (1, 8), (6, 4, 1, 1), (6, 4, 2, 1), (1, 4, 6), (6, 1, 1, 4)]
+          (8, 1), (1, 8), (6, 4, 1, 1), (6, 4, 2, 1), (1, 4, 6), (6, 1, 1, 4),
+          # more rows / columns than a row-blocked implementation would take at once (1024)
+          (1030, 8), (8, 1030)]
 
 
 def build_tensor(rng, shape, axis, group_size, wd, classes=CLASSES, maxmag=None):
